@@ -98,7 +98,7 @@ PROPS = {
         "units": [
             {"pkg": "validation", "run": "^TestVerif_C10_CrossValidation$", "checks": {Q: 4000, T: 100000}, "shards": {Q: 2, T: 16}, "timeout": {Q: 600, T: 3000}},
             {"pkg": "validation", "run": "^TestVerif_C10_Hash$", "checks": {Q: 300, T: 5000}, "shards": {Q: 2, T: 16}, "timeout": {Q: 600, T: 3000}},
-            {"pkg": "provider/manifest", "run": "^TestVerif_C10_VersionGate$", "checks": {Q: 800, T: 8000}, "shards": {Q: 4, T: 16}, "timeout": {Q: 900, T: 3000}, "shrinktime": "40s"},
+            {"pkg": "provider/manifest", "run": "^TestVerif_C10_VersionGate$", "checks": {Q: 1500, T: 8000}, "shards": {Q: 4, T: 16}, "timeout": {Q: 900, T: 3000}, "shrinktime": "40s"},
         ],
     },
     "C18": {
@@ -158,7 +158,7 @@ PROPS = {
         "level_text": "Generated schedules over {manifest received (version k), lease closed, hostname reply ok/error, finish the running cluster operation ok/error, shutdown} of length <= 10 drive the real cluster service. A barrier event that travels the same bus acknowledges that the service loop (and, through its synchronous hand-off, the manager) has processed each stimulus. Over the call log: cluster operations of the lease never overlap; no Deploy starts after the lease-closed signal was accepted; after an accepted close (without shutdown) teardown starts after the last deploy finished, the reservation disappears from the inventory and the hostnames become reservable by another deployment; without close/failure/shutdown the last deploy carries the most recently received manifest. Manifest versions name different hostname sets (including one held by another deployment); at the end nothing may be reserved for the lease's deployment and the foreign hostname must still belong to its holder.",
         "level_note": "Trusted: the barrier (bus FIFO + synchronous manager hand-off); bounded waits of 20 s only detect wedging; teardown errors are limited to two attempts (the code retries with back-off).",
         "assumptions": ["one lease per schedule; the deployment monitor's first health check (>= 4 s) lies beyond the duration of a case"],
-        "units": [{"pkg": "provider/cluster", "run": "^TestVerif_C14$", "checks": {Q: 120, T: 2500}, "shards": {Q: 4, T: 16}, "race": {Q: False, T: True}, "timeout": {Q: 900, T: 3000}, "shrinktime": "40s"}],
+        "units": [{"pkg": "provider/cluster", "run": "^TestVerif_C14$", "checks": {Q: 260, T: 2500}, "shards": {Q: 4, T: 16}, "race": {Q: False, T: True}, "timeout": {Q: 900, T: 3000}, "shrinktime": "40s"}],
     },
     "C20": {
         "level": "fault_enumeration", "floor": 0.4,
